@@ -88,6 +88,11 @@ def joinSep (l : List String) : String := ", ".intercalate l
 /-- rows of a relation in `OrderedRange(projection)` order: cell by cell -/
 def cellsLt (a b : List Rep) : Bool := C06.Old.cellsLoop less a b
 
+/-- an array slot: a hole prints as nothing -/
+def optText (rec : Rep → String) : Option Rep → String
+  | some x => rec x
+  | none => ""
+
 /-- one `Format` method (`%v`), nested `%v` replaced by `rec` -/
 def reprStep (rec : Rep → String) : Rep → String
   | .num n => toString n
@@ -105,7 +110,7 @@ def reprStep (rec : Rep → String) : Rep → String
   | .bytes b _ =>                                                            -- Bytes.Format (no offset)
     "<<" ++ (if b.all renderableByte then reprStr b else joinSep (b.map toString)) ++ ">>"
   | .array vs off =>
-    offRepr off ++ "[" ++ joinSep (vs.map (fun o => match o with | some x => rec x | none => "")) ++ "]"
+    offRepr off ++ "[" ++ joinSep (vs.map (optText rec)) ++ "]"
   | .dict m =>
     -- `d.OrderedEntries()`: all entry tuples sorted by DictEntryTuple order
     "{" ++ joinSep ((orderedValues (members1 (.dict m))).map (fun t =>
@@ -276,6 +281,13 @@ def evalUnder (π : EnumOrder) : Ex → Res
     match evalUnder π a with
     | .ok x => .ok (C06.Impl.build [x])
     | .err => .err
+
+/-- `KF-superimposed`: two sugar tuples of one kind at the same index among the values handed to the set builder -/
+def superimposedL (ms : List Rep) : Bool :=
+  let dup (l : List Int) := l.length != l.eraseDups.length
+  dup (ms.filterMap (fun r => match r with | .charT i _ => some i | _ => none)) ||
+  dup (ms.filterMap (fun r => match r with | .byteT i _ => some i | _ => none)) ||
+  dup (ms.filterMap (fun r => match r with | .itemT i _ => some i | _ => none))
 
 /-- the observables of a run: value up to meaning, printed text, CLI output, or the error class -/
 def obs : Res → String
